@@ -34,7 +34,7 @@ pub static DEF: PropDef = PropDef {
 		"libyaml's scanner is quadratic in the nesting depth of flow mappings; such inputs are kept to depths that finish within the watchdog (slow-but-terminating is not counted as a hang)",
 		"workers run under RLIMIT_AS = 8 GiB so that an allocation bomb aborts the worker (reported as a crash) instead of exhausting the machine",
 	],
-	expected_probes: &["family.random", "family.mutant", "family.tokens", "family.deep", "family.lengths", "family.yaml_aliases", "family.refused_by_target", "family.utf16_32", "family.empty_or_bom", "r.fail.fired", "w.fail.fired", "r.eintr.fired", "second_call_after_error", "verdict.err", "verdict.ok", "p.spawn", "p.exit0", "p.exit1", "p.sigpipe", "bin.debug", "bin.release"],
+	expected_probes: &["family.random", "family.mutant", "family.tokens", "family.deep", "family.lengths", "family.yaml_aliases", "family.refused_by_target", "family.utf16_32", "family.wide", "family.empty_or_bom", "r.fail.fired", "w.fail.fired", "r.eintr.fired", "second_call_after_error", "verdict.err", "verdict.ok", "p.spawn", "p.exit0", "p.exit1", "p.sigpipe", "bin.debug", "bin.release"],
 	needs_bins: true,
 	watchdog_s: 60,
 };
@@ -131,7 +131,75 @@ fn gen(seed: u64, idx: u64, t: Tier) -> J {
 	let mut families = vec![];
 	for _ in 0..ncalls {
 		let fam = r.below(100);
-		let (bytes, f, family): (Vec<u8>, Fmt, &str) = if fam < 14 {
+		let (bytes, f, family): (Vec<u8>, Fmt, &str) = if fam < 3 {
+			// Breadth instead of depth: one shallow document made of very many small nodes.
+			let n = r.log_range(2_000, 300_000);
+			let fm = *r.pick(&[Fmt::Yaml, Fmt::Yaml, Fmt::Json, Fmt::Msgpack]);
+			let kind = r.below(3);
+			let mut b: Vec<u8> = vec![];
+			match fm {
+				Fmt::Msgpack => {
+					b.push(if kind == 1 { 0xdf } else { 0xdd });
+					b.extend_from_slice(&(n as u32).to_be_bytes());
+					for i in 0..n {
+						match kind {
+							0 => b.push((i % 100) as u8),
+							1 => {
+								let k = format!("k{i}");
+								b.push(0xa0 | k.len() as u8);
+								b.extend_from_slice(k.as_bytes());
+								b.push(1);
+							}
+							_ => b.extend_from_slice(&[0x81, 0xa1, b'a', 0x01]),
+						}
+					}
+				}
+				Fmt::Json => {
+					b.push(if kind == 1 { b'{' } else { b'[' });
+					for i in 0..n {
+						if i > 0 {
+							b.push(b',');
+						}
+						match kind {
+							0 => b.extend_from_slice(b"1"),
+							1 => b.extend_from_slice(format!("\"k{i}\":1").as_bytes()),
+							_ => b.extend_from_slice(b"{\"a\":1}"),
+						}
+					}
+					b.push(if kind == 1 { b'}' } else { b']' });
+				}
+				_ => {
+					let flow = r.chance(1, 3);
+					if flow {
+						b.push(if kind == 1 { b'{' } else { b'[' });
+					}
+					for i in 0..n {
+						let item = match kind {
+							0 => "a".to_owned(),
+							1 => format!("k{i}: 1"),
+							_ => "{a: 1}".to_owned(),
+						};
+						if flow {
+							if i > 0 {
+								b.extend_from_slice(b", ");
+							}
+							b.extend_from_slice(item.as_bytes());
+						} else {
+							if kind != 1 {
+								b.extend_from_slice(b"- ");
+							}
+							b.extend_from_slice(item.as_bytes());
+							b.push(b'\n');
+						}
+					}
+					if flow {
+						b.push(if kind == 1 { b'}' } else { b']' });
+						b.push(b'\n');
+					}
+				}
+			}
+			(b, fm, "wide")
+		} else if fam < 14 {
 			let n = r.range(0, 64);
 			((0..n).map(|_| r.next() as u8).collect(), *r.pick(&ALL_FMTS), "random")
 		} else if fam < 38 {
@@ -278,6 +346,7 @@ fn eval(case: &J) -> Eval {
 				"yaml_aliases" => "family.yaml_aliases",
 				"refused_by_target" => "family.refused_by_target",
 				"utf16_32" => "family.utf16_32",
+				"wide" => "family.wide",
 				_ => "family.empty_or_bom",
 			},
 			1,
